@@ -426,7 +426,7 @@ static void case_walk(vrng *r, uint64_t caseno, char flavor)
     ctx_open(&c, root, (int)vrn(r, 3));
     bool ok = (root->kind == K_OBJ) ? binson_parser_init_object(c.p, c.buf, c.n) : binson_parser_init_array(c.p, c.buf, c.n);
     uint32_t steps = 0, limit = 5 + vrn(r, vrn(r, 4) ? 60 : 400);
-    uint32_t p_enter = 200 + vrn(r, 700), p_leave = 20 + vrn(r, 150), p_raw = (flavor == 'b') ? 350 : (flavor == '6' ? 120 : 0);
+    uint32_t p_enter = 200 + vrn(r, 700), p_leave = 20 + vrn(r, 150), p_raw = (flavor == 'b') ? 350 : (flavor == '6' ? 120 : 60);
     uint32_t p_field = (flavor == '7') ? 600 : (flavor == '6' ? 60 : 100);
     bool ascending_only = flavor == '7' && vrn(r, 3) == 0;
     uint64_t oph = 0;
@@ -439,7 +439,7 @@ static void case_walk(vrng *r, uint64_t caseno, char flavor)
         int op = OP_NEXT;
         bool cont = cur && (cur->kind == K_OBJ || cur->kind == K_ARR);
         if (cont && vrp(r, p_enter)) op = OP_ENTER;
-        else if (cur && vrp(r, cont ? p_raw : p_raw / 4)) op = (flavor == 'b' && vrn(r, 2)) ? (vrn(r, 5) == 0 ? OP_RAW_SMALL : OP_TOWRITER) : OP_RAW;
+        else if (cur && vrp(r, cont ? p_raw : p_raw / 4)) op = (flavor != '6' && vrn(r, 2)) ? (vrn(r, 4) == 0 ? OP_RAW_SMALL : OP_TOWRITER) : OP_RAW;
         else if (vrp(r, p_leave)) op = OP_LEAVE;
         else if (vc_in_object(&c.m) && vrp(r, p_field)) op = vrn(r, 3) == 0 ? OP_FIELD_E : OP_FIELD;
         else if (flavor != 'b' && vrn(r, 12) == 0) op = OP_NEXT_E;
